@@ -160,6 +160,8 @@ def mon_c03(cases):
                         drk_used[kn] = i
                     if pk == "J" and op["k"] == "encrypt":
                         yield dict(what="unidentified bytes sealed during encrypt", case=ci, op=i, finding=None)
+        if c.get("weaknonce"):
+            yield dict(what=c["weaknonce"], case=ci, op=len(c["ops"]) - 1, finding=None)
         if c.get("sealdup"):
             yield dict(what="(key, nonce) pair used twice: %s" % c["sealdup"], case=ci, op=len(c["ops"]) - 1, finding=None)
         for w in c.get("kmsbad") or []:
